@@ -34,6 +34,9 @@ def close(x, y, scale=None):
 def lossless_variants(r):
     """the same object after a later canonicalise / lossless compress (any admissible entry point)"""
     out = []
+    d = sdense(r)
+    if d is None or not np.any(np.abs(d) > 1e-13):
+        return out          # the zero vector/operator has no canonical form: the library refuses it by assertion (precondition of canonicalise)
     for name in ("ensure_left_canonical", "ensure_right_canonical"):
         c = r.copy()
         out.append((name, getattr(c, name)()))
